@@ -397,7 +397,8 @@ def _infer_kind(ctx, tags_all) -> None:
 RESULT_FUNCS = ("vector.Vector._elementwise_operation", "vector.Vector.__radd__", "vector.Vector._unary_operation",
                 "vector.MethodProxy.__call__", "vector.Vector.__getattr__", "table.Table.inner_join", "table.Table.join",
                 "table.Table.full_join", "table.Table.aggregate", "table.Table.window", "csv._read_csv_from_file",
-                "vector._Date.__add__", "vector.Vector.unique", "vector.Vector.pluck", "table.Table.sort_by")
+                "vector._Date.__add__", "vector.Vector.unique", "vector.Vector.pluck")
+# (Table.sort_by is not a result in the statement's sense: a sorted column keeps its column's dtype - C14.a)
 
 
 def _result_sites(ctx) -> None:
